@@ -31,6 +31,16 @@ THEOREMS = [
     "Wild.Layout.tls_start_aligned_witness",
     "Wild.Layout.C04_full_witness",
     "Wild.Layout.C04_partial",
+    "Wild.Layout.startStopLoop_counts",
+    "Wild.Layout.addSection_inv",
+    "Wild.Layout.order_wellbracketed",
+    "Wild.Layout.region_displacement",
+    "Wild.Layout.sectionLayout_good",
+    "Wild.Layout.segLoop_region",
+    "Wild.Layout.load_segment_congruent",
+    "Wild.Layout.segmentLayout_records",
+    "Wild.Layout.segmentAlignments_ge",
+    "Wild.Layout.load_segment_congruent_all",
 ]
 LEVEL = "proof"
 TECHNIQUE = ("Lean 4 theorems over an executable model of OutputOrderBuilder / layout_section_parts / layout_sections / compute_segment_layout; "
